@@ -289,8 +289,8 @@ def match_known(prop, clauses, replay, known):
 # Evidence
 # --------------------------------------------------------------------------
 def write_evidence(prop, ev):
-    if REPO != "/repo":
-        return None   # a developer run on a scratch worktree leaves no evidence
+    if REPO != "/repo" or os.environ.get("VERIF_NO_EVIDENCE"):
+        return None   # a developer run (scratch worktree, or a seeded change applied to /repo by bin/trymutant) leaves no evidence
     os.makedirs(os.path.join(VERIF, "evidence"), exist_ok=True)
     p = os.path.join(VERIF, "evidence", prop + ".json")
     with open(p, "w") as f:
